@@ -250,22 +250,6 @@ func GenProgFiles(r *core.Rand, n int, twoFiles bool) *Prog {
 	f1, f2 := &fileW{}, &fileW{}
 	header(f1)
 	w := func(s string) { wr(f1, s) }
-	w("type T struct{ a, b int }")
-	w("")
-	w("type U struct{ s string }")
-	w("")
-	w("var (")
-	w("\tgInt    = 5")
-	w("\tgMap    = map[string]int{\"a\": 1}")
-	w("\tgChan   = make(chan int, 1)")
-	w("\tgFunc   = func() {}")
-	w("\tgSliceT = make([]T, 4, 9)")
-	w("\tgT      = &T{1, 2}")
-	w("\tgU      = &U{\"u\"}")
-	w("\tgBig    = make([]byte, 1<<20)")
-	w("\tgBigStr = string(make([]byte, 600000))")
-	w(")")
-	w("")
 	if twoFiles {
 		header(f2)
 		// the second file is longer than the first up to here: positions in it are far from those of main.go
@@ -318,6 +302,25 @@ func GenProgFiles(r *core.Rand, n int, twoFiles bool) *Prog {
 	w("func main() {")
 	w("\t" + call(0))
 	w("}")
+	w("")
+	// types and package-level values come last: the functions start near the top of the file, so that a line
+	// number cut short (main.go:105 -> main.go:10) still points into some function
+	w("type T struct{ a, b int }")
+	w("")
+	w("type U struct{ s string }")
+	w("")
+	w("var (")
+	w("\tgInt    = 5")
+	w("\tgMap    = map[string]int{\"a\": 1}")
+	w("\tgChan   = make(chan int, 1)")
+	w("\tgFunc   = func() {}")
+	w("\tgSliceT = make([]T, 4, 9)")
+	w("\tgT      = &T{1, 2}")
+	w("\tgU      = &U{\"u\"}")
+	w("\tgBig    = make([]byte, 1<<20)")
+	w("\tgBigStr = string(make([]byte, 600000))")
+	w(")")
+	w("")
 	p.Src = f1.b.String()
 	if twoFiles {
 		p.Src2 = f2.b.String()
